@@ -273,6 +273,13 @@ fn retype_paths(x: &XResp, t: &mut Tape) -> Vec<(Vec<String>, &'static str, J)> 
         }
         if a.ping.is_some() {
             out.push((s(&["response", "app", &i, "ping"]), "ping:string", J::s("ok")));
+            out.push((s(&["response", "app", &i, "ping", "status"]), "ping.status:number", J::U(0)));
+        }
+        if let Some(ev) = &a.events {
+            for (k, _) in ev.iter().enumerate() {
+                out.push((s(&["response", "app", &i, "event", &k.to_string(), "status"]), "event.status:number", J::U(0)));
+                out.push((s(&["response", "app", &i, "event", &k.to_string()]), "event[k]:string", J::s("ok")));
+            }
         }
         if let Some(u) = &a.uc {
             out.push((s(&["response", "app", &i, "updatecheck"]), "updatecheck:array", J::A(vec![])));
@@ -280,15 +287,38 @@ fn retype_paths(x: &XResp, t: &mut Tape) -> Vec<(Vec<String>, &'static str, J)> 
             if u.info.is_some() {
                 out.push((s(&["response", "app", &i, "updatecheck", "info"]), "info:number", J::U(1)));
             }
-            if u.urls.is_some() {
+            if let Some(urls) = &u.urls {
                 out.push((s(&["response", "app", &i, "updatecheck", "urls"]), "urls:array", J::A(vec![])));
                 out.push((s(&["response", "app", &i, "updatecheck", "urls", "url"]), "url:object", J::O(vec![])));
+                for (k, _) in urls.iter().enumerate() {
+                    out.push((s(&["response", "app", &i, "updatecheck", "urls", "url", &k.to_string(), "codebase"]), "url.codebase:number", J::U(1)));
+                    out.push((s(&["response", "app", &i, "updatecheck", "urls", "url", &k.to_string()]), "url[k]:string", J::s("http://x/")));
+                }
             }
             if let Some(m) = &u.manifest {
                 out.push((s(&["response", "app", &i, "updatecheck", "manifest"]), "manifest:string", J::s("m")));
                 out.push((s(&["response", "app", &i, "updatecheck", "manifest", "version"]), "manifest.version:number", J::U(1)));
                 out.push((s(&["response", "app", &i, "updatecheck", "manifest", "packages", "package"]), "package:object", J::O(vec![])));
                 out.push((s(&["response", "app", &i, "updatecheck", "manifest", "actions", "action"]), "action:object", J::O(vec![])));
+                for (k, a) in m.actions.iter().enumerate() {
+                    let k = k.to_string();
+                    let base = ["response", "app", &i, "updatecheck", "manifest", "actions", "action", &k];
+                    let with = |f: &str| {
+                        let mut v = s(&base);
+                        v.push(f.to_string());
+                        v
+                    };
+                    out.push((s(&base), "action[k]:string", J::s("install")));
+                    if a.event.is_some() {
+                        out.push((with("event"), "action.event:number", J::U(1)));
+                        out.push((with("event"), "action.event:array", J::A(vec![J::s("install")])));
+                    }
+                    if a.run.is_some() {
+                        out.push((with("run"), "action.run:number", J::U(42)));
+                        out.push((with("run"), "action.run:bool", J::Bool(true)));
+                        out.push((with("run"), "action.run:object", J::O(vec![])));
+                    }
+                }
                 for (k, p) in m.packages.iter().enumerate() {
                     let k = k.to_string();
                     let base = ["response", "app", &i, "updatecheck", "manifest", "packages", "package", &k];
@@ -301,6 +331,14 @@ fn retype_paths(x: &XResp, t: &mut Tape) -> Vec<(Vec<String>, &'static str, J)> 
                     out.push((with("required"), "required:string", J::s("true")));
                     out.push((with("required"), "required:number", J::U(1)));
                     out.push((with("fp"), "fp:number", J::U(1)));
+                    if p.hash.is_some() {
+                        out.push((with("hash"), "hash:number", J::U(1)));
+                        out.push((with("hash"), "hash:array", J::A(vec![])));
+                    }
+                    if p.hash_sha256.is_some() {
+                        out.push((with("hash_sha256"), "hash_sha256:number", J::U(1)));
+                        out.push((with("hash_sha256"), "hash_sha256:bool", J::Bool(false)));
+                    }
                     if p.size.is_some() {
                         out.push((with("size"), "size:string", J::s("12")));
                         out.push((with("size"), "size:negative", J::I(-1)));
